@@ -309,6 +309,11 @@ impl ParsedProgram {
           }
           let numer = i64::from_le_bytes(data[0..8].try_into().unwrap());
           let denom = i64::from_le_bytes(data[8..16].try_into().unwrap());
+          // the compiler emits reduced fractions with a positive denominator; anything else
+          // would make Ratio::new panic (zero) or overflow while normalising the sign (i64::MIN)
+          if denom <= 0 {
+            return Err(MechError::new(InvalidRationalConstantError { numer, denom }, None).with_compiler_loc());
+          }
           Value::R64(Ref::new(R64::new(numer, denom)))
         },
         #[cfg(all(feature = "matrix", feature = "string"))]
@@ -967,6 +972,16 @@ pub struct ConstantEntryOutOfBoundsError;
 impl MechErrorKind for ConstantEntryOutOfBoundsError {
   fn name(&self) -> &str { "ConstantEntryOutOfBounds" }
   fn message(&self) -> String { "Constant entry out of bounds".to_string() }
+}
+
+#[derive(Debug, Clone)]
+pub struct InvalidRationalConstantError {
+  pub numer: i64,
+  pub denom: i64,
+}
+impl MechErrorKind for InvalidRationalConstantError {
+  fn name(&self) -> &str { "InvalidRationalConstant" }
+  fn message(&self) -> String { format!("Invalid rational constant: {}/{}", self.numer, self.denom) }
 }
 
 #[derive(Debug, Clone)]
